@@ -12,6 +12,8 @@ KIND_NAMES = {
     1303: 'session/metadata: metadata phase of a magnet torrent in the stepped event loop (extension handshakes, ut_metadata exchange, snub/disconnect, messages before the metadata is known, replay of queued messages) vs MetaSess.v',
     1701: 'C17/ram: resourcemanager vs Ram.v (outcomes and notifications validated; allocation compared exactly)',
     901: 'C09/picker: piecepicker (peer half) under the torrent glue vs Picker.v (picks validated against the legal set)',
+    1401: 'C14/resume: boltdbresumer Write then Read of generated records in a real bbolt file vs Resume.run_resume (identity up to the stored precision)',
+    1402: 'C14/registry: Session API histories (add file/magnet, given and duplicate ids, failing adds, remove, start/stop, add tracker, close+reopen, compact+reopen) vs Registry.v (port choice validated)',
     1501: 'C15/udp_packet: UDP announce datagram vs Tracker.udp_announce',
     1502: 'C15/http_query: HTTP announce query vs Tracker.http_query',
     1503: 'C15/announcer: PeriodicalAnnouncer events and gaps vs Announcer.v (timing tolerance -25/+600 ms)',
@@ -74,6 +76,11 @@ PROPS = {
         'kinds': {101: {'quick': 2500, 'thorough': 60000}, 102: {'quick': 800, 'thorough': 20000}},
         'trusted': ['the dispatch of torrent.run() is mirrored by hand in VLoop.PumpEx', 'WriteCacheSize is large enough that the write-cache manager never defers a piece download in the generated scenarios'],
         'assumptions': ['the history was accepted by the model (s_bad = 0), which the correspondence establishes per generated history'],
+    },
+    'C14': {
+        'kinds': {1401: {'quick': 2000, 'thorough': 50000}, 1402: {'quick': 1200, 'thorough': 30000}},
+        'trusted': ['bbolt (transactions, bucket iteration)', 'encoding/json, time.Format/Parse(RFC3339), time.Duration.String/ParseDuration for the list, time and duration fields (sampled by kind 1401, not modelled)', 'uuid generation of torrent ids (ids are compared by identity only)'],
+        'assumptions': ['strings stored in resume records are valid UTF-8 (encoding/json replaces invalid sequences)', 'API calls are made one at a time (concurrent callers: C20)'],
     },
     'C13': {
         'kinds': {1301: {'quick': 2500, 'thorough': 50000}, 1302: {'quick': 3000, 'thorough': 60000}, 1303: {'quick': 1500, 'thorough': 40000}},
